@@ -128,7 +128,7 @@ func init() {
 	})
 	register(&spec{
 		ID: "C36", Title: "The import cache key changes exactly when package sources change", Level: "exploration",
-		Instrument: map[string]simgen.Options{xgo + "/tool": {Sync: true, Conc: true, Maps: true, Files: []string{"imp.go"}, Swap: map[string]string{"time": simgen.SimrtPath + "/stime"}}},
+		Instrument: map[string]simgen.Options{xgo + "/tool": {Sync: true, Conc: true, Maps: true, Files: []string{"imp.go"}, Swap: map[string]string{"time": simgen.SimrtPath + "/stime", "os": simgen.SimosPath}}},
 		Harness: []harnessCopy{{"c36", "tool"}},
 		TestPkg: "tool", TestName: "TestZSimC36",
 		QuickRuns: 4000, ThoroughRuns: 400000, QuickBudget: 4 * time.Minute, ThoroughBudget: 40 * time.Minute,
